@@ -7,7 +7,9 @@
 //!   push <path> <seg>       <path>                                  (std `PathBuf::push`)
 //!   comps <path>            <flags> <comps>                         (std `Path::components`)
 //!   ld <variant> <name>     v:<via>;d=<disk>;get=<r>;include=<r>;import=<r>;from=<r>;extends=<r>;inclist=<r>;joincb=<r>;
-//!                           fn=<r>;macro=<r>;nested=<r>
+//!                           fn=<r>;macro=<r>;nested=<r>[;incim=<r>;inclist2=<r>;filter=<r>]   (the last three for all but
+//!                           the names of the alphabet product)
+//!   tr <variant> <form> <name>   <i> <+hook path|-> <r>   (the syscall-oracle driver, `c17 trace`, run under strace)
 //!   tl <variant> <name>     <r>        (Environment::templates() of the `get` environment)
 //!   lc / lct / lcclear      the loader-lifecycle stream, see `run_lifecycle`
 //!
@@ -145,6 +147,10 @@ fn populate(dir: &Path, depth: usize, kind: char, canaries: &mut Vec<PathBuf>) {
 fn outside_only(dir: &Path, label: &str, canaries: &mut Vec<PathBuf>) {
     write_file(&dir.join(format!("only_{label}.txt")), 'C', canaries);
     write_file(&dir.join("onlyoutside"), 'C', canaries);
+    // customary index / layout names, and namesakes of the base directory itself (`base`) with a suffix
+    for f in ["index.html", "index.j2", "index.htm", "index.txt", "default.html", "layout.html", "base.html", "base.j2", "base.txt"] {
+        write_file(&dir.join(f), 'C', canaries);
+    }
     fs::create_dir_all(dir.join("outside_dir").join("sub")).unwrap();
     write_file(&dir.join("outside_dir").join("x.txt"), 'C', canaries);
     write_file(&dir.join("outside_dir").join("sub").join("y.txt"), 'C', canaries);
@@ -379,7 +385,11 @@ fn classify_err(e: &minijinja::Error) -> String {
     }
 }
 
-const FORMS: [(&str, &str); 10] = [
+/// forms that run for EVERY name; the remaining ones of `FORMS` run for the targeted, disguised,
+/// shaped and noise names, in the lifecycle stream and under the syscall oracle
+const CORE_FORMS: usize = 10;
+
+const FORMS: [(&str, &str); 13] = [
     ("get", ""),
     ("include", "{% include name %}"),
     ("import", "{% import name as m %}{{ m.tag }}"),
@@ -393,6 +403,12 @@ const FORMS: [(&str, &str); 10] = [
     ("macro", "{% macro m(n) %}{% include n %}{% endmacro %}{{ m(name) }}"),
     // the include sits in a template that itself came from the loader (`inc` = `{% include name %}`)
     ("nested", "{% include \"inc\" %}"),
+    // a single include that tolerates a missing template
+    ("incim", "{% include name ignore missing %}"),
+    // the name is the SECOND choice of a list whose first choice does not exist
+    ("inclist2", "{% include [\"mj17-nope\", name] %}"),
+    // `State::get_template` called from a filter of the host
+    ("filter", "{{ name|load }}"),
 ];
 
 /// name of the including template in the join-callback form
@@ -426,6 +442,11 @@ fn make_env(base: &Path, form: &str) -> Environment<'static> {
             state.get_template(name).map(|t| t.source().to_string())
         });
     }
+    if form == "filter" {
+        env.add_filter("load", |state: &minijinja::State, name: &str| -> Result<String, minijinja::Error> {
+            state.get_template(name).map(|t| t.source().to_string())
+        });
+    }
     env
 }
 
@@ -439,7 +460,7 @@ fn run_form(env: &Environment<'_>, form: &str, src: &str, name: &str) -> String 
         } else {
             let drv = if form == "joincb" { CB_PARENT } else { "<drv>" };
             match env.render_named_str(drv, src, context! { name => name }) {
-                Ok(out) => classify_text(&out, form == "inclist"),
+                Ok(out) => classify_text(&out, form == "inclist" || form == "incim"),
                 Err(e) => classify_err(&e),
             }
         }
@@ -464,7 +485,7 @@ fn make_loaders(t: &Tree) -> Loaders {
     Loaders { envs }
 }
 
-fn run_ld(l: &Loaders, variant: &str, name: &str) -> String {
+fn run_ld(l: &Loaders, variant: &str, name: &str, all_forms: bool) -> String {
     let Some((_, base, envs)) = l.envs.iter().find(|x| x.0 == variant) else {
         return "bad-case".into();
     };
@@ -487,7 +508,9 @@ fn run_ld(l: &Loaders, variant: &str, name: &str) -> String {
     };
     let mut parts = vec![format!("v:{}", via), format!("d={}", disk)];
     for (i, (form, src)) in FORMS.iter().enumerate() {
-        parts.push(format!("{}={}", form, run_form(&envs[i], form, src, name)));
+        if i < CORE_FORMS || all_forms {
+            parts.push(format!("{}={}", form, run_form(&envs[i], form, src, name)));
+        }
     }
     parts.join(";")
 }
@@ -511,13 +534,18 @@ fn run_tl(l: &Loaders, out: &mut dyn Write) {
 //
 //   #lcbase <scenario> <spelling> <configured base>
 //   lc <scenario> <phase> <spelling> <name>\tcwd=<dir>;bc=<canonical base at construction|->;
-//        bl=<canonical base now|->;v=<hook path>|<disk>;vj=<joined name>|<hook path>|<disk>;<form>=<r>;…
+//        bl=<canonical base now|->;v=<hook path>|<disk>;vj=<joined name>|<hook path>|<disk>;
+//        vi=<hook path>|<disk> of `inc`;vn=<hook path>|<disk> of `mj17-nope`;<form>=<r>;…
 //   lct <scenario> <phase> <spelling>\t<name>=<r>;…          (Environment::templates of the `get` env)
 //
 // `<disk>` = what `fs::read_to_string(hook path)` answers at that moment, asked by the harness
 // itself: `-` NotFound, `!` another error, else the markers of the content.
 
-const LC_SCENARIOS: [(&str, &[&str]); 10] = [
+const LC_SCENARIOS: [(&str, &[&str]); 12] = [
+    // the configured base is a regular FILE (nothing is beneath a file) …
+    ("base-is-file", &["cd L", "mkfile", "build", "load"]),
+    // … that is later replaced by a directory
+    ("file-then-dir", &["cd L", "mkfile", "build", "load", "rmfile", "mk", "load"]),
     ("clear", &["cd L", "mk", "build", "load", "rm", "clear", "load", "mk", "load"]),
     ("exists", &["cd L", "mk", "build", "load"]),
     ("created-after", &["cd L", "build", "load", "mk", "load"]),
@@ -530,7 +558,11 @@ const LC_SCENARIOS: [(&str, &[&str]); 10] = [
     ("empty", &["mk", "cd T", "build", "load", "cd L", "load"]),
 ];
 
-const LC_SPELLINGS: [(&str, &str); 7] = [
+const LC_SPELLINGS: [(&str, &str); 10] = [
+    ("abs-enddd", "{L}/site/templates/sub/.."),
+    ("abs//", "//{L}/site/templates"),
+    // a symbolic link TO the base (the owner's configuration, not a link inside the base)
+    ("symlink", "{L}/tlink"),
     ("abs", "{L}/site/templates"),
     ("abs/", "{L}/site/templates/"),
     ("abs/.", "{L}/site/templates/."),
@@ -607,9 +639,10 @@ fn hook_and_disk(base: &Path, name: &str) -> String {
 
 fn canon_or_dash(cwd_relative: &Path) -> String {
     let p = if cwd_relative.as_os_str().is_empty() { Path::new(".") } else { cwd_relative };
+    // only a DIRECTORY has something beneath it
     match fs::canonicalize(p) {
-        Ok(c) => tilde(c.as_os_str().as_bytes()),
-        Err(_) => "-".into(),
+        Ok(c) if c.is_dir() => tilde(c.as_os_str().as_bytes()),
+        _ => "-".into(),
     }
 }
 
@@ -634,6 +667,7 @@ fn run_lifecycle(t: &Tree, out: &mut dyn Write, only: Option<(&str, &str, &str)>
                 }
             }
             lc_write(&l.join("only_lc.txt"), 'C');
+            let _ = std::os::unix::fs::symlink(l.join("site").join("templates"), l.join("tlink"));
             lc_write(&l.join("other").join("only_other.txt"), 'C');
             // seen from `other`, the relative spellings of the base name this directory
             lc_mk_base(&l.join("other").join("site").join("templates"));
@@ -652,6 +686,8 @@ fn run_lifecycle(t: &Tree, out: &mut dyn Write, only: Option<(&str, &str, &str)>
                     "cd other2" => std::env::set_current_dir(l.join("other2")).unwrap(),
                     "cd T" => std::env::set_current_dir(&abs_base).unwrap(),
                     "mk" => lc_mk_base(&abs_base),
+                    "mkfile" => lc_write(&abs_base, 'C'),
+                    "rmfile" => fs::remove_file(&abs_base).unwrap(),
                     "rm" => fs::remove_dir_all(&abs_base).unwrap(),
                     "clear" => {
                         // `Environment::clear_templates`; the reloaders rebuild their environment instead
@@ -688,6 +724,9 @@ fn run_lifecycle(t: &Tree, out: &mut dyn Write, only: Option<(&str, &str, &str)>
                                 format!("bl={}", bl),
                                 format!("v={}", hook_and_disk(&base, name)),
                                 format!("vj={}|{}", pct(joined.as_bytes()), hook_and_disk(&base, &joined)),
+                                // the helper names two forms look up BEFORE the name: `inc` (nested), `mj17-nope` (inclist2)
+                                format!("vi={}", hook_and_disk(&base, "inc")),
+                                format!("vn={}", hook_and_disk(&base, "mj17-nope")),
                             ];
                             for (i, (form, src)) in FORMS.iter().enumerate() {
                                 parts.push(format!("{}={}", form, run_form(&envs[i], form, src, name)));
@@ -746,6 +785,127 @@ fn noise_name(rng: &mut Rng) -> String {
     }
 }
 
+
+// ------------------------------------------------------------------------------------ disguises
+//
+// A check/use mismatch (the filter looks at one spelling, the file system gets another: trimmed,
+// decoded, folded, NUL-stripped, truncated, re-split …) needs a name that LOOKS harmless to the
+// filter and becomes an escaping spelling after the clean-up.  The generator does not guess the
+// clean-up: it takes escaping spellings whose target canary exists (`kernels`) and applies every
+// disguise of a family of inverse clean-ups (pads, encodings, look-alikes, prefixes, suffixes).
+
+/// escaping spellings whose target exists as a canary (relative to `p4/base`, or absolute)
+fn kernels(t: &Tree) -> Vec<String> {
+    let mut v: Vec<String> = [
+        "../a.", "../a/a.", "../../a.", "a/../../a.", "a/a/../../../a.", "../only_outside.txt", "../onlyoutside",
+        "a/../../onlyoutside", "../outside_dir/x.txt", "../sibling/only_sibling.txt",
+    ]
+    .iter()
+    .map(|s| s.to_string())
+    .collect();
+    v.push(t.p4.join("a.").to_str().unwrap().to_string());
+    v.push(t.p4.join("onlyoutside").to_str().unwrap().to_string());
+    v
+}
+
+/// blanks, controls, NUL, zero-width and format characters a clean-up may strip
+const PADS: [&str; 14] = [
+    " ", "\t", "\n", "\r", "\u{a0}", "\u{3000}", "\u{200b}", "\u{feff}", "\u{ad}", "\0", "\u{7f}", "\u{1}", "\u{200e}", "\u{2060}",
+];
+/// spellings a clean-up may turn into `.`
+const DOTS: [&str; 9] = ["%2e", "%2E", "%252e", "\u{2024}", "\u{FF0E}", "\u{FE52}", "\u{3002}", "&#46;", "\\."];
+/// spellings a clean-up may turn into `..`
+const DOTDOTS: [&str; 4] = ["\u{2025}", "%2e.", ".%2e", "\u{FF0E}."];
+/// spellings a clean-up may turn into a separator
+const SLASHES: [&str; 16] = [
+    "\\", "%2f", "%2F", "%5c", "%5C", "%252f", "\u{2215}", "\u{FF0F}", "\u{2044}", "\u{29F8}", "\u{FF3C}", "\u{2216}", ":", ";", "|", "\\\\",
+];
+const PREFIXES: [&str; 15] = [
+    "C:", "c:/", "C:\\", "file://", "file:", "//", "\\\\?\\", "\\\\", "~/", "./", "%00", "\0", " ", "http://x/", "a/",
+];
+const TAILS: [&str; 11] = ["\0", "\0.txt", "%00", " ", ".", "/", "/.", "?x", "#x", ";x", "::$DATA"];
+
+fn map_dotdot(k: &str, f: &dyn Fn(&str) -> String) -> String {
+    k.split('/').map(|s| if s == ".." { f(s) } else { s.to_string() }).collect::<Vec<_>>().join("/")
+}
+
+fn disguised(t: &Tree) -> Vec<String> {
+    let mut v: Vec<String> = vec![];
+    for k in kernels(t) {
+        // a short token in front of every `..` that a clean-up may cut off (drive, scheme, marker)
+        for x in ["C:", "x:", "file:", "~", "@", "%00", "+", "-"] {
+            v.push(map_dotdot(&k, &|s| format!("{x}{s}")));
+        }
+        for x in PADS {
+            v.push(map_dotdot(&k, &|s| format!("{x}{s}")));
+            v.push(map_dotdot(&k, &|s| format!("{s}{x}")));
+            v.push(map_dotdot(&k, &|_| format!(".{x}.")));
+            v.push(format!("{x}{k}"));
+            v.push(format!("{k}{x}"));
+            v.push(k.split('/').map(|s| format!("{x}{s}")).collect::<Vec<_>>().join("/"));
+        }
+        for d in DOTS {
+            v.push(map_dotdot(&k, &|_| format!("{d}{d}")));
+            v.push(map_dotdot(&k, &|_| format!(".{d}")));
+            v.push(map_dotdot(&k, &|_| format!("{d}.")));
+        }
+        for d in DOTDOTS {
+            v.push(map_dotdot(&k, &|_| d.to_string()));
+        }
+        if k.starts_with("a/") {
+            for s in SLASHES {
+                v.push(k.replace('/', s));
+                v.push(format!("a/{}", k[2..].replace('/', s)));
+                v.push(format!("a/x{s}../{}", &k[2..]));
+            }
+            for (d, s) in [("%2e", "%2f"), ("\u{FF0E}", "\u{FF0F}"), ("%2E", "%5C"), ("\u{2024}", "\u{2215}"), ("%252e", "%252f")] {
+                v.push(k.replace("..", &format!("{d}{d}")).replace('/', s));
+            }
+        }
+        for x in PREFIXES {
+            v.push(format!("{x}{k}"));
+        }
+        for x in TAILS {
+            v.push(format!("{k}{x}"));
+        }
+    }
+    v
+}
+
+/// the same escaping spellings in shapes a fast path or a limit may single out: very long (by
+/// repeated separators, by `a/../` round trips), very deep, beyond NAME_MAX / PATH_MAX
+fn shaped(t: &Tree) -> Vec<String> {
+    let mut v: Vec<String> = vec![];
+    for k in kernels(t) {
+        v.push(k.replace('/', &"/".repeat(300)));
+        v.push(format!("{}{}", "/".repeat(1200), k));
+        v.push(format!("{}{}", "a/../".repeat(60), k));
+        v.push(format!("{}{}", "a/../".repeat(250), k));
+        v.push(format!("{}{}", "a//".repeat(3), k));
+    }
+    for j in [6usize, 9, 17, 33, 65, 130, 260] {
+        v.push(format!("{}a/../../a.", "/".repeat(j)));
+        v.push(format!("{}a/../../onlyoutside", "/".repeat(j)));
+    }
+    v.push(format!("{}{}a.", "a/".repeat(4), "../".repeat(5)));
+    v.push(format!("{}{}onlyoutside", "a/".repeat(3), "../".repeat(4)));
+    v.push("a".repeat(5000));
+    v.push("a/".repeat(2500));
+    v.push(format!("{}a.", "../".repeat(2000)));
+    v.push(format!("{}/a.", "a".repeat(255)));
+    v.push(format!("a/{}", "a.".repeat(200)));
+    v
+}
+
+/// Windows spellings as plain data on this platform: device names, drive prefixes, UNC / verbatim
+/// / device-namespace prefixes, alternate data streams, trailing dots and blanks, short names
+const WINDOWS_DATA: [&str; 44] = [
+    "CON", "NUL", "nul", "COM1", "LPT1", "AUX", "PRN", "CON.txt", "NUL/a.", "a/NUL", "C:", "C:a.", "C:/a.", "C:\\a.", "c:a/a.",
+    "C:..", "C:../a.", "C:/../a.", "C:..\\a.", "D:", "D:x/y", "\\\\?\\C:\\a.", "//?/C:/a.", "\\\\.\\C:\\a.", "//./C:/a.",
+    "\\\\server\\share\\a.", "//server/share/a.", "a.:stream", "a.::$DATA", "a:b", "a. ", "a..", "a. . .", "A.", "a~1",
+    "PROGRA~1/a.", "a/C:/a.", "a/C:../../a.", "C:onlyoutside", "C:/onlyoutside", "CONIN$", "a/..:/a.", "..:", "C:.",
+];
+
 fn targeted(t: &Tree) -> Vec<String> {
     let mut v: Vec<String> = vec![];
     let canaries = [
@@ -781,6 +941,11 @@ fn targeted(t: &Tree) -> Vec<String> {
             }
         }
     }
+    for r in rels.iter().filter(|r| !r.contains('/')) {
+        // every canary's file name as an escaping spelling
+        v.push(format!("../{r}"));
+        v.push(format!("a/../../{r}"));
+    }
     for r in rels {
         v.push(format!("/{r}"));
         v.push(format!("{r}/"));
@@ -798,6 +963,9 @@ fn targeted(t: &Tree) -> Vec<String> {
     ] {
         v.push(s.to_string());
     }
+    v.extend(disguised(t));
+    v.extend(shaped(t));
+    v.extend(WINDOWS_DATA.iter().map(|s| s.to_string()));
     v
 }
 
@@ -822,21 +990,21 @@ fn main() {
             let alpha = alphabet();
             let a = alpha.len();
             let mut idx: u64 = 0;
-            let emit = |out: &mut dyn Write, name: &str, idx: u64| {
+            let emit = |out: &mut dyn Write, name: &str, idx: u64, all_forms: bool| {
                 if idx % n != k {
                     return;
                 }
                 // the primary spelling of the base for every name …
                 let abs = vs[0].1.as_os_str().as_bytes();
                 writeln!(out, "sj {} {}\t{}", pct(abs), pct(name.as_bytes()), run_sj(abs, name)).unwrap();
-                writeln!(out, "ld abs {}\t{}", pct(name.as_bytes()), run_ld(&l, "abs", name)).unwrap();
+                writeln!(out, "ld abs {}\t{}", pct(name.as_bytes()), run_ld(&l, "abs", name, all_forms)).unwrap();
                 // … and one more, rotating over the other spellings and the disk-free bases
                 let r = ((idx / n) % 12) as usize;
                 if r < 4 {
                     let (vn, b) = &vs[r + 1];
                     let b = b.as_os_str().as_bytes();
                     writeln!(out, "sj {} {}\t{}", pct(b), pct(name.as_bytes()), run_sj(b, name)).unwrap();
-                    writeln!(out, "ld {} {}\t{}", vn, pct(name.as_bytes()), run_ld(&l, vn, name)).unwrap();
+                    writeln!(out, "ld {} {}\t{}", vn, pct(name.as_bytes()), run_ld(&l, vn, name, all_forms)).unwrap();
                 } else {
                     let b = PURE_BASES[r - 4].as_bytes();
                     writeln!(out, "sj {} {}\t{}", pct(b), pct(name.as_bytes()), run_sj(b, name)).unwrap();
@@ -852,25 +1020,25 @@ fn main() {
                         segs[j] = alpha[(c % a as u64) as usize].as_str();
                         c /= a as u64;
                     }
-                    emit(&mut out, &segs.join("/"), idx);
+                    emit(&mut out, &segs.join("/"), idx, false);
                     idx += 1;
                 }
             }
             if !thorough {
                 for _ in 0..20000 {
                     let segs: Vec<&str> = (0..5).map(|_| rng.pick(&alpha).as_str()).collect();
-                    emit(&mut out, &segs.join("/"), idx);
+                    emit(&mut out, &segs.join("/"), idx, false);
                     idx += 1;
                 }
             }
             for name in targeted(&t) {
-                emit(&mut out, &name, idx);
+                emit(&mut out, &name, idx, true);
                 idx += 1;
             }
             let noise = if thorough { 200000 } else { 20000 };
             for _ in 0..noise {
                 let name = noise_name(&mut rng);
-                emit(&mut out, &name, idx);
+                emit(&mut out, &name, idx, true);
                 idx += 1;
             }
             if k == 0 {
@@ -920,15 +1088,27 @@ fn main() {
             }
             let mut seen = std::collections::BTreeSet::new();
             names.retain(|n| seen.insert(n.clone()));
-            // the loader closure itself over the absolute spelling, `{% include name %}` over the relative one
+            // the loader closure itself over the absolute spelling; over the relative spelling every
+            // route by which a name reaches the loader, in rotation (stdout: `tr <variant> <form> <name>`)
             let direct = path_loader(&vs[0].1);
-            let env = make_env(&vs[2].1, "include");
+            let envs: Vec<Environment<'static>> = FORMS.iter().map(|(form, _)| make_env(&vs[2].1, form)).collect();
+            // the helper template of the `nested` form is loaded before the first bracket
+            for env in &envs {
+                let _ = env.get_template("inc");
+            }
+            let mut found_cb = std::collections::BTreeSet::new();
             out.flush().unwrap();
             for (i, name) in names.iter().enumerate() {
                 for (vi, vn) in [(0usize, "abs"), (2usize, "rel")] {
                     let idx = i * 2 + (vi / 2);
-                    let hook = match guarded(|| safe_join(&vs[vi].1, name)) {
-                        Ok(Some(p)) => format!("+{}", pct(p.as_os_str().as_bytes())),
+                    let fi = i % FORMS.len();
+                    let (form, src) = if vi == 0 { ("direct", "") } else { FORMS[fi] };
+                    // the name the loader is asked for (the join callback rewrites it)
+                    let asked = if form == "joincb" { doc_join(name, CB_PARENT) } else { name.clone() };
+                    // a joined name that was found before is answered from the store (no file-system call)
+                    let stored = form == "joincb" && found_cb.contains(&asked);
+                    let hook = match guarded(|| safe_join(&vs[vi].1, &asked)) {
+                        Ok(Some(p)) if !stored => format!("+{}", pct(p.as_os_str().as_bytes())),
                         _ => "-".into(),
                     };
                     let _ = fs::metadata(format!("/MJ17-B/{idx}"));
@@ -940,12 +1120,15 @@ fn main() {
                                 Err(e) => classify_err(&e),
                             }
                         } else {
-                            run_form(&env, "include", "{% include name %}", name)
+                            run_form(&envs[fi], form, src, name)
                         }
                     });
                     let _ = fs::metadata(format!("/MJ17-E/{idx}"));
                     let r = r.unwrap_or_else(|m| format!("panic:{}", pct(m.as_bytes())));
-                    writeln!(out, "tr {} {}\t{} {} {}", vn, pct(name.as_bytes()), idx, hook, r).unwrap();
+                    if form == "joincb" && r.starts_with("f:") {
+                        found_cb.insert(asked);
+                    }
+                    writeln!(out, "tr {} {} {}\t{} {} {}", vn, form, pct(name.as_bytes()), idx, hook, r).unwrap();
                 }
             }
         }
@@ -979,7 +1162,7 @@ fn main() {
                 Some("ld") => {
                     let t = build_tree();
                     let l = make_loaders(&t);
-                    run_ld(&l, f[1], &String::from_utf8(arg(2)).unwrap())
+                    run_ld(&l, f[1], &String::from_utf8(arg(2)).unwrap(), true)
                 }
                 _ => "bad-case".into(),
             };
